@@ -313,7 +313,57 @@ def first_sessions(trace_dir, n=3, shard=1):
 
 
 # --------------------------------------------------------------------------- judging a trace
+JUDGE_BYTES = 48 << 20      # one TLC run holds its whole trace in memory (about 40x the JSON text): larger traces are judged in parts
+
+
+def split_trace(scratch, trace, tag, parts):
+    """cuts every shard at session boundaries into `parts` consecutive pieces; returns the list of part traces"""
+    dirs = [scratch.sub("trace-%s-part%d" % (tag, j)) for j in range(parts)]
+    counts = [0] * parts
+    for k in range(NSHARDS):
+        src = os.path.join(trace["dir"], "shard%d.ndjson" % k)
+        size = os.path.getsize(src)
+        outs = [open(os.path.join(d, "shard%d.ndjson" % k), "w") for d in dirs]
+        j, done, cur = 0, 0, None
+        with open(src) as f:
+            for ln in f:
+                m = re.search(r'"sess":(-?\d+)', ln)
+                sess = m.group(1) if m else None
+                if sess != cur:
+                    cur = sess
+                    while j < parts - 1 and done >= (j + 1) * size / parts:
+                        j += 1
+                outs[j].write(ln)
+                counts[j] += 1
+                done += len(ln)
+        for o in outs:
+            o.close()
+    return [dict(dir=d, records=c) for d, c in zip(dirs, counts)]
+
+
 def judge(scratch, module, props, trace, tag, constants=None, timeout=3600):
+    size = sum(os.path.getsize(os.path.join(trace["dir"], "shard%d.ndjson" % k)) for k in range(NSHARDS))
+    parts = max(1, -(-size // JUDGE_BYTES))
+    if parts == 1:
+        return judge_one(scratch, module, props, trace, tag, constants, timeout)
+    out = dict(fail=[], known=[], note=[], stat={}, done={}, tlc=dict(distinct=0, generated=0, wall=0.0, out=[]))
+    for j, part in enumerate(split_trace(scratch, trace, tag, parts)):
+        v = judge_one(scratch, module, props, part, "%s-part%d" % (tag, j), constants, timeout)
+        shutil.rmtree(part["dir"], ignore_errors=True)
+        for kind in ("fail", "known", "note"):
+            out[kind] += v[kind]
+        for k, n in v["stat"].items():
+            out["stat"][k] = out["stat"].get(k, 0) + n
+        for k, n in v["done"].items():
+            out["done"][k] = out["done"].get(k, 0) + n
+        for k in ("distinct", "generated", "wall"):
+            out["tlc"][k] += v["tlc"][k]
+    if sum(out["done"].values()) != trace["records"]:
+        raise Infra("trace validation in %d parts consumed %d of %d records" % (parts, sum(out["done"].values()), trace["records"]))
+    return out
+
+
+def judge_one(scratch, module, props, trace, tag, constants=None, timeout=3600):
     cfg = "SPECIFICATION Spec\nCHECK_DEADLOCK FALSE\nPOSTCONDITION TraceAccepted\n"
     cfg += "CONSTANT Props = {%s}\n" % ", ".join('"%s"' % p for p in props)
     for k, v in (constants or {}).items():
